@@ -56,7 +56,8 @@ def _rows_values(rnd, n, textpool, wide=False):
         if r < 0.08:
             a = None
         elif r < 0.45:
-            a = rnd.choice([0, 1, -1, 2, 7, 127, 128, -129, 32767, 65536, 2 ** 31, -2 ** 31 - 1, 2 ** 47, 2 ** 53, 2 ** 53 + 1,
+            a = rnd.choice([0, 1, -1, 2, 7, 127, 128, -128, -129, 32767, -32768, 65536, 2 ** 23 - 1, 2 ** 23, -2 ** 23, -2 ** 23 - 1,
+                            2 ** 31, -2 ** 31, -2 ** 31 - 1, 2 ** 47 - 1, 2 ** 47, -2 ** 47, -2 ** 47 - 1, 2 ** 53, 2 ** 53 + 1,
                             2 ** 63 - 1, -2 ** 63, rnd.randrange(-1000, 1000)])
         elif r < 0.6:
             a = rnd.choice([0.5, -0.5, 1.0, 2.0 ** 53, 1e300, -1e300, 3.25, float(rnd.randrange(-50, 50)) + 0.5])
@@ -90,6 +91,17 @@ def tree_db(path, page_size, rnd, n=200, longkeys=False, pad=180, auto_vacuum=No
     con.execute("CREATE TABLE e(x, y)")
     con.execute("CREATE INDEX ex ON e(x)")
     con.execute("CREATE TABLE rowidcol(rowid TEXT, oid, z)")
+    # WITHOUT ROWID rows a little longer than the local payload limit, inserted in descending key order: cells with one
+    # partly filled overflow page that share their b-tree page with cells stored behind them
+    con.execute("CREATE TABLE wide(k TEXT PRIMARY KEY, v) WITHOUT ROWID")
+    xi = ((page_size - 12) * 64 // 255) - 23
+    for i in range(14, 0, -1):
+        con.execute("INSERT INTO wide VALUES(?, ?)", ("w%03d" % i, "W" * (xi + 5 + 9 * i)))
+    con.execute("CREATE TABLE ints(id INTEGER PRIMARY KEY, n)")
+    for i, nv in enumerate([-2 ** 7, 2 ** 7 - 1, -2 ** 15, 2 ** 15 - 1, -2 ** 23, -2 ** 23 - 1, -2 ** 23 + 1, 2 ** 23 - 1, 2 ** 23, -2 ** 31, 2 ** 31 - 1,
+                            -2 ** 47, -2 ** 47 - 1, -2 ** 47 + 1, 2 ** 47 - 1, 2 ** 47, -2 ** 63, 2 ** 63 - 1, 0, 1, -1]):
+        con.execute("INSERT INTO ints VALUES(?, ?)", (i + 1, nv))
+    con.execute("CREATE INDEX intsn ON ints(n)")
     con.execute("CREATE TABLE pl(id INTEGER PRIMARY KEY, b)")
     con.execute("CREATE INDEX plb ON pl(b)")
     con.execute("BEGIN")
@@ -213,6 +225,10 @@ def zoo_db(path, page_size, rnd, n=120):
     con.execute("CREATE INDEX z6a ON z6(a COLLATE BINARY)")
     con.execute("CREATE INDEX z6b ON z6(b COLLATE NOCASE, a COLLATE RTRIM DESC)")
     con.execute("CREATE INDEX z6c ON z6(b, a)")
+    # a primary key that lands on an earlier UNIQUE constraint's index and takes its direction
+    con.execute("CREATE TABLE z7(code TEXT, v, UNIQUE(code DESC), PRIMARY KEY(code)) WITHOUT ROWID")
+    con.execute("CREATE TABLE z8(a, b, c, UNIQUE(a, b DESC), PRIMARY KEY(a DESC, b)) WITHOUT ROWID")
+    con.execute("CREATE INDEX z8c ON z8(c)")
     con.execute("BEGIN")
     pool = TEXTPOOL
     for i in range(n):
@@ -235,6 +251,8 @@ def zoo_db(path, page_size, rnd, n=120):
         except sqlite3.IntegrityError:
             pass
         con.execute("INSERT INTO z4 VALUES(?,?)", (i * 5 - 100, vals[i]))
+        con.execute("INSERT OR IGNORE INTO z7 VALUES(?,?)", ("c%03d" % (i * 7 % 97), i))
+        con.execute("INSERT OR IGNORE INTO z8 VALUES(?,?,?)", (i % 9, rnd.choice(pool) + str(i % 5), i % 4))
         try:
             con.execute("INSERT INTO z5 VALUES(?,?)", (rnd.choice(pool) + str(i // 2), rnd.choice([None, i % 4, "q"])))
         except sqlite3.IntegrityError:
